@@ -434,7 +434,8 @@ func c15d(c *Ctx) {
 				continue
 			}
 			got := f["IsGlobal"]
-			blk := def.Block()
+			// the form is known where the label is handed back (the node itself may be made earlier, once for both forms)
+			blk := r.Block()
 			cond := c.canonDNF(fn, blk)
 			pos := c.W.Pos(def.Pos())
 			switch {
@@ -443,8 +444,32 @@ func c15d(c *Ctx) {
 				seen["plain"] = true
 			case strings.Contains(cond, `+($0.peekToken.Type == "(")`):
 				must := c.mustLits(fn, blk)
-				shape := hasLit(must, `+($0.peekToken.Type == "(")`) && hasLit(must, `+($0.peek3Token.Type == ")")`) && hasLit(must, `+($0.peek4Token.Type == ":")`) &&
-					c.everyConjHasOneOf(fn, blk, `+($0.peek2Token.Type == "GLOBAL")`, `+($0.peek2Token.Type == "LOCAL")`)
+				scopeTested := c.everyConjHasOneOf(fn, blk, `+($0.peek2Token.Type == "GLOBAL")`, `+($0.peek2Token.Type == "LOCAL")`)
+				if !scopeTested {
+					// the modifier test kept in a local (`hasScope := a || b`): a boolean merge that is
+					// known true here, every way of which is one of the two tests
+					pcf := c.PC(fn)
+					for _, l := range must {
+						if !strings.HasPrefix(l, "+phi(") || strings.Contains(l, " == ") {
+							continue
+						}
+						ph, isPhi := c.valueOfTerm(fn, l[1:]).(*ssa.Phi)
+						if !isPhi {
+							continue
+						}
+						if ways, known := pcf.valueWays(ph, ph.Block(), true, 0); known && len(ways) > 0 {
+							all := true
+							for _, w := range ways {
+								cw := pcf.canonOf(dnf{cs: []conj{w}}).cs[0]
+								if !hasLit(cw, `+($0.peek2Token.Type == "GLOBAL")`) && !hasLit(cw, `+($0.peek2Token.Type == "LOCAL")`) {
+									all = false
+								}
+							}
+							scopeTested = scopeTested || all
+						}
+					}
+				}
+				shape := hasLit(must, `+($0.peekToken.Type == "(")`) && hasLit(must, `+($0.peek3Token.Type == ")")`) && hasLit(must, `+($0.peek4Token.Type == ":")`) && scopeTested
 				c.Check(shape, "tryParseLabelStatement/scoped-label-shape", pos, "a scoped label is exactly  name ( global|local ) :", "a scoped label is recognised without all of '(' , global|local , ')' and ':' being tested: a command such as name(local) could be taken for a label")
 				c.Check(got == `($0.peek2Token.Type == "GLOBAL")`, "tryParseLabelStatement/scoped-label", pos, "'name(scope):' is global iff the written modifier is GLOBAL", "'name(scope):' label has IsGlobal = "+got+", expected ($0.peek2Token.Type == \"GLOBAL\") evaluated at the label name")
 				seen["scoped"] = true
